@@ -102,7 +102,11 @@ func (k knownFile) match(prop, assertion string) *knownFinding {
 func main() {
 	// the collector's madvise traffic is very expensive in this VM: collect only near the limit
 	debug.SetGCPercent(-1)
-	debug.SetMemoryLimit(12 << 30)
+	limitGB := int64(4)
+	if v, err := strconv.Atoi(os.Getenv("GOSYM_MEMLIMIT_GB")); err == nil && v > 0 {
+		limitGB = int64(v)
+	}
+	debug.SetMemoryLimit(limitGB << 30)
 	if len(os.Args) < 3 {
 		fmt.Fprintln(os.Stderr, "usage: gosym check <ID> [--tier quick|thorough] | gosym replay <ID> <cex.json>")
 		os.Exit(2)
